@@ -14,12 +14,12 @@ sys.path.insert(0, ROOT)
 from engine import common, mbt, tlc  # noqa: E402
 
 CKINDS = ["builtin", "builtin2", "module", "nested", "baseonly", "custominit", "kwonly", "mid", "local", "dynamic", "eqhash", "dcerr", "attr", "local_shadow"]
-AKINDS = ["none", "json", "picklable", "unpicklable", "socket", "unreprable", "mixed", "const", "loadfail", "localscalar", "nocopy"]
+AKINDS = ["none", "json", "picklable", "unpicklable", "socket", "unreprable", "mixed", "const", "loadfail", "localscalar", "nocopy", "surrogate"]
 ENCS = ["json", "dict", "pickle"]
 FOREIGN = ["func", "cls", "inst", "module", "nested_cls", "nested_func", "os_system", "eval", "object",
            "own_func", "own_cls", "own_factory", "own_exc_mod_func", "wrapped_func", "exc_method", "exc_inner_cls", "partial_inst", "own_pkg_cls", "own_pkg_func"]
 GOOD = ["exc", "nested_exc", "builtin_exc", "baseonly", "custominit", "sub_exc", "mixed"]
-SYNTH = ["nomodule_issubclass", "nomodule_isinstance", "missing_attr", "missing_nested", "deep_missing", "lazy", "lazy_sub", "cold_pkg", "nomod",
+SYNTH = ["state_walk", "nomodule_issubclass", "nomodule_isinstance", "missing_attr", "missing_nested", "deep_missing", "lazy", "lazy_sub", "cold_pkg", "nomod",
          "nomodule_field", "nomodule_dotted", "nomodule_builtin_name", "unimportable", "emptymod", "relmod"]
 
 
@@ -82,7 +82,7 @@ def gen_c20(seed: int, tier: str) -> List[Dict[str, Any]]:
     rng = random.Random(("c20", seed).__repr__())
     allk = GOOD + FOREIGN + SYNTH
     cases = []
-    for t, a, entry in itertools.product(allk, ("none", "one", "two"), ("direct", "validate", "json")):
+    for t, a, entry in itertools.product(allk, ("none", "one", "two", "big"), ("direct", "validate", "json")):
         cases.append({"p": {"t": t, "a": a}, "entry": entry})
     # nesting: a payload of every kind as cause / context / two levels deep under a good or synthetic top
     for top in ("exc", "missing_attr", "nomodule_field", "custominit"):
